@@ -204,12 +204,10 @@ def h_buffered(c, ptype):
     else:
         c.summary_override(QS + ".handle_frame", lambda ctx, slf, f: None)
         c.summary_override(QF + ".PseudoVersionNegotiationFrame.__init__", lambda ctx, cls, **k: ctx.make_obj(cls))
-    c.summary_override(QT + ".__init__", lambda ctx, cls: fresh_tls.append(ctx.make_obj(cls)) or fresh_tls[-1])
     old_tls = c.opaque("tls_session_before")
     old_decs, old_keys = {"Initial": c.opaque("d")}, {"client_initial_hp": c.bytes("hp", length=16)}
     s = full_qsession(c, packet_buffer_quic=[pkt], tls_session=old_tls, decryptors=old_decs, keys=old_keys, hash_fun=c.opaque("h"), cipher=c.opaque("ci"),
                       key_length=16, alpn=c.opaque("alpn"), server_cids=c.new_set_of([]), client_cids=c.new_set_of([]))
-    del fresh_tls[:]                         # (the session's own constructor made one too)
     # the largest packet numbers received so far, per space and direction (RFC 9000 17.2.5.3: a Retry does NOT reset packet numbers)
     tables = {n: c.get(s, n) for n in ("packet_number_server", "packet_number_client")}
     for n, t in tables.items():
@@ -230,7 +228,14 @@ def h_buffered(c, ptype):
                  and c.get(ob[0], "src_packet") is pkt)
     c.ensure("decrypted_iff_protected_type", (decrypted == [pkt]) == (ptype not in ("RETRY", "VERSION_NEG")) and len(decrypted) <= 1)
     if ptype == "RETRY":
-        c.ensure("retry.fresh_tls_session", len(fresh_tls) == 1 and g("tls_session") is fresh_tls[0])
+        # a FRESH TLS session (built by the real constructor, however that is written): not the old one, nothing parsed, nothing buffered
+        nt = g("tls_session")
+        fresh = nt is not old_tls and c.isinstance(nt, QT) and all(c.get(nt, a) is None for a in ("ciphersuite", "client_random", "alpn", "tls_vers"))
+        if fresh:
+            for side in ("server", "client"):
+                fresh = fresh and all(v == 0 for v in c.get(nt, side + "_offset").values()) and all(len(v) == 0 for v in c.get(nt, side + "_frame_buffer").values()) \
+                    and all(len(v) == 0 for v in c.get(nt, side + "_buffer").values())
+        c.ensure("retry.fresh_tls_session", fresh)
         c.ensure("retry.keys_and_decryptors_dropped", len(g("decryptors")) == 0 and len(g("keys")) == 0 and g("hash_fun") is None
                  and g("cipher") is None and g("key_length") is None)
     else:
